@@ -37,11 +37,11 @@ def random_trees(c, wd, num, seed):
     the model that the intended design satisfies P on every tree, and a second run that the as-built machine
     fails only in trees with a precompile call"""
     scripts, r = tlc_scripts(wd, "EvmCosmosRand.tla", "EvmCosmosRand_sim.cfg", num, RAND_MAXOPS + 6, seed)
-    if r.error:
+    if r.error or "is violated" in r.out:
         raise Infra("the intended design violates P on a random tree (specs/EvmCosmosRand.tla Intended):\n" + r.out[-3000:])
     c.add_tlc("EvmCosmosRand_sim.cfg", r)
     _, r2 = tlc_scripts(wd, "EvmCosmosRand.tla", "EvmCosmosRand_defect_comp.cfg", num, RAND_MAXOPS + 6, seed)
-    if r2.error:
+    if r2.error or "is violated" in r2.out:
         raise Infra("as-built machine fails P in a tree without precompile call (ExplainedR):\n" + r2.out[-3000:])
     c.add_tlc("EvmCosmosRand_defect_comp.cfg", r2)
     if len(scripts) < num // 2:
